@@ -435,6 +435,7 @@ def random_desc(rng, nclasses):
         r = rng.random()
         strs = [a["name"] for a in attrs if a["ty"] in ("str", "int") and a.get("form", "none") in ("none", "value")
                 and not a["name"].startswith("_")]
+        strs = [x for x in strs if x != "kwargs"]  # key="kwargs": __init__ cannot be built (see docs/C17.md)
         if r < 0.35 and strs:
             cd["key"] = rng.choice(strs)
         if rng.random() < 0.3:
@@ -494,25 +495,55 @@ def main(tier, replay=None):
     bad, logs = evaluate(cases)
     reported = set()
     known_calls = 0
-    for i, code in sorted(bad, key=lambda b: -b[1])[:40]:
-        c = dict(cases[i])
+
+    def call_sig(c, call, code, where):
+        detail = {}
+        if call is not None:
+            posv, kwv, tag, x, flag = call
+            adv_names = [p[0] for p in c["adv"]]
+            unadv = [k for k, _ in kwv if k not in adv_names]
+            if tag == "A" and not flag:
+                kind = "impl_rejects"
+            elif tag == "A":
+                kind = "accepted"
+            else:
+                kind = "rejected" + ("" if flag else "_state_changed")
+            detail = {"kind": kind, "keyword": ",".join(unadv), "npos": len(posv)}
+        return {"code": code, "mkind": c["kind"].strip("()").split()[0], **detail,
+                "where": (WHERE_SPEC if code == 2 else WHERE_MODEL).get(where, "call")}
+
+    # first pass: take out, in every failing method, the calls a known finding explains, and
+    # re-check all those methods in one batch; only what still fails is triaged one by one
+    todo = []
+    reduced, ridx = [], []
+    for i, code in bad:
+        c = cases[i]
+        if code != 2:
+            todo.append((i, code, c))
+            continue
+        keep = [o for o in c["obs"] if chk.match_known(call_sig(c, o, 2, 0)) is None]
+        if len(keep) == len(c["obs"]):
+            todo.append((i, code, c))
+            continue
+        first = next(o for o in c["obs"] if o not in keep)
+        known_calls += len(c["obs"]) - len(keep)
+        chk.violation("known", {"desc": descs[owner[i]], "cls": c["cls"], "method": c["method"], "call": first},
+                      sig=call_sig(c, first, 2, 0))
+        reduced.append(dict(c, obs=keep))
+        ridx.append(i)
+    if reduced:
+        bad2, logs2 = evaluate(reduced, tag="k")
+        logs += logs2
+        todo += [(ridx[j], code2, reduced[j]) for j, code2 in bad2]
+    if len(todo) > 40:
+        chk.violation(f"{len(todo) - 40} further failing methods were not triaged one by one",
+                      {"kind": "untriaged", "methods": [(cases[i]["cls"], cases[i]["method"]) for i, _, _ in todo[40:]][:50]},
+                      no_input=True)
+    for i, code, c in sorted(todo, key=lambda b: -b[1])[:40]:
+        c = dict(c)
         for _round in range(12):
             where, call = locate(c, code)
-            detail = {}
-            if call is not None:
-                posv, kwv, tag, x, flag = call
-                kws = [k for k, _ in kwv]
-                adv_names = [p[0] for p in c["adv"]]
-                unadv = [k for k in kws if k not in adv_names]
-                if tag == "A" and not flag:
-                    kind = "impl_rejects"
-                elif tag == "A":
-                    kind = "accepted"
-                else:
-                    kind = "rejected" + ("" if flag else "_state_changed")
-                detail = {"kind": kind, "keyword": ",".join(unadv), "npos": len(posv)}
-            sig = {"code": code, "mkind": c["kind"].strip("()").split()[0], **detail,
-                   "where": (WHERE_SPEC if code == 2 else WHERE_MODEL).get(where, "call")}
+            sig = call_sig(c, call, code, where)
             is_known = code == 2 and call is not None and chk.match_known(sig) is not None
             key = json.dumps(sig, sort_keys=True)
             if key not in reported or is_known:
